@@ -12,7 +12,8 @@ Modelled: construction (file created with mode x when missing, truncated with mo
 `reading()` / `writing()` on their normal paths (begin, update_keys, body, flush, end),
 `put` (buffering rule `used_memory > bufsize`), `get` (pending values are readable), `keys`, `flush`.
 Exceptional exits of sessions and the lock are the subject of C04 (`Model/Sessions.lean`).
-Keys are byte strings here; the harness uses ASCII keys so `len(str) = len(bytes)` in `_usedmem`.
+Keys are the UTF-8 bytes of the `str` keys; `put` also receives the key's length in characters, which is
+what `_usedmem` counts.
 
 Core Lean only.
 -/
@@ -54,7 +55,7 @@ inductive BOp
   | cnew (c : Nat) (bufsize : Int) (readonly overwrite : Bool) (comment : Bytes)
   | begin (c : Nat) (write : Bool)
   | end_ (c : Nat)
-  | put (c : Nat) (k v : Bytes)
+  | put (c : Nat) (k v : Bytes) (klen : Nat)   -- klen = len(key) in characters (what `_usedmem` counts)
   | get (c : Nat) (k : Bytes)
   | keys (c : Nat)
   | flush (c : Nat)
@@ -139,7 +140,7 @@ def bstep (bw : BWorld) : BOp → BWorld × BOut
         | none => (bw1, out)
         | some b1 =>
           (setB { bw1 with w := (step bw1.w (.close b.slot)).1 } c (some { b1 with state := .idle }), out)
-  | .put c k v =>
+  | .put c k v klen =>
     match getB bw c with
     | none => (bw, .err .noBackend)
     | some b =>
@@ -148,7 +149,7 @@ def bstep (bw : BWorld) : BOp → BWorld × BOut
       else if ¬ (k.length < 256) then (bw, .err .tooLong)
       else
         let b' := { b with queue := b.queue ++ [⟨k, v⟩], keys := b.keys ++ [k],
-                           usedmem := b.usedmem + k.length + v.length }
+                           usedmem := b.usedmem + klen + v.length }
         if (b'.usedmem : Int) > b'.bufsize then flush (setB bw c (some b')) c b'
         else (setB bw c (some b'), .ok)
   | .get c k =>
